@@ -797,6 +797,83 @@ Section Exclusive.
       | H1 : wf_block E ?sc ?s ?a, H2 : wf_block E ?sc ?s ?b |- _ => rewrite (Db _ _ _ H1 _ H2) in *; clear H1
       end; eauto.
   Qed.
+  (* ---------------- at most one first violation ---------------- *)
+  Lemma viol_e_det :
+    (forall sc e r l, viol_e E sc e r l -> forall r' l', viol_e E sc e r' l' -> r = r' /\ l = l') /\
+    (forall sc es r l, viol_es E sc es r l -> forall r' l', viol_es E sc es r' l' -> r = r' /\ l = l').
+  Proof.
+    apply viol_e_es_mind; intros;
+      match goal with H : ?T |- _ =>
+        match T with viol_e _ _ _ _ _ => idtac | viol_es _ _ _ _ _ => idtac end; inversion H; subst; clear H end;
+      parts;
+      try (exfalso; excl; fail);
+      try (det; try (exfalso; excl; fail); try congruence; eauto; fail);
+      try congruence; eauto.
+  Qed.
+  Lemma viol_e_det1 sc e r l r' l' : viol_e E sc e r l -> viol_e E sc e r' l' -> r = r' /\ l = l'.
+  Proof. intros H1 H2. eapply (proj1 viol_e_det); eassumption. Qed.
+
+  Lemma first_viol_det {A} (wf : A -> Prop) (viol : A -> rule -> loc -> Prop) xs :
+    (forall x r l, wf x -> viol x r l -> False) ->
+    (forall x r l r' l', viol x r l -> viol x r' l' -> r = r' /\ l = l') ->
+    forall r lo r' lo', first_viol wf viol xs r lo -> first_viol wf viol xs r' lo' -> r = r' /\ lo = lo'.
+  Proof.
+    intros Hex Hdet r lo r' lo' H1. revert r' lo'. induction H1; intros r' lo' H2; inversion H2; subst; eauto; exfalso; eauto.
+  Qed.
+  Lemma viol_attr_det sc a r l r' l' : viol_attr E sc a r l -> viol_attr E sc a r' l' -> r = r' /\ l = l'.
+  Proof. unfold viol_attr. apply viol_e_det1. Qed.
+  Lemma viol_cond_det sc c r l r' l' : viol_cond E sc c r l -> viol_cond E sc c r' l' -> r = r' /\ l = l'.
+  Proof.
+    intros H1 H2. destruct H1; destruct H2; parts;
+      try (exfalso; excl; fail); try (det; try congruence; auto; fail); try (eapply viol_e_det1; eassumption); auto.
+  Qed.
+  Lemma viol_declare_det sc v r l r' l' : viol_declare E sc v r l -> viol_declare E sc v r' l' -> r = r' /\ l = l'.
+  Proof. intros H1 H2. destruct H1; inversion H2; subst; try congruence; auto. eapply viol_e_det1; eassumption. Qed.
+  Lemma viol_assign_det sc v r l r' l' : viol_assign E sc v r l -> viol_assign E sc v r' l' -> r = r' /\ l = l'.
+  Proof. intros H1 H2. destruct H1; inversion H2; subst; try congruence; auto. eapply viol_e_det1; eassumption. Qed.
+
+  Ltac excl2 :=
+    exfalso;
+    match goal with
+    | Hv : viol_stmt E ?sc ?s _ _, Hw : wf_stmt E ?sc ?s _ |- _ => exact (proj1 wf_viol_excl _ _ _ _ Hv _ Hw)
+    | Hv : viol_block E ?sc ?s _ _, Hw : wf_block E ?sc ?s _ |- _ => exact (proj1 (proj2 wf_viol_excl) _ _ _ _ Hv _ Hw)
+    | _ => excl
+    end.
+  Ltac same :=
+    match goal with
+    | H1 : viol_e E ?sc ?e ?r ?l, H2 : viol_e E ?sc ?e ?r' ?l' |- ?r = ?r' /\ ?l = ?l' => exact (viol_e_det1 _ _ _ _ _ _ H1 H2)
+    | H1 : viol_declare E ?sc ?e ?r ?l, H2 : viol_declare E ?sc ?e ?r' ?l' |- ?r = ?r' /\ ?l = ?l' => exact (viol_declare_det _ _ _ _ _ _ H1 H2)
+    | H1 : viol_assign E ?sc ?e ?r ?l, H2 : viol_assign E ?sc ?e ?r' ?l' |- ?r = ?r' /\ ?l = ?l' => exact (viol_assign_det _ _ _ _ _ _ H1 H2)
+    | H1 : first_viol (wf_attr E ?sc) _ ?xs ?r ?l, H2 : first_viol (wf_attr E ?sc) _ ?xs ?r' ?l' |- ?r = ?r' /\ ?l = ?l' =>
+        exact (first_viol_det _ _ _ (wf_attr_viol sc) (viol_attr_det sc) _ _ _ _ H1 H2)
+    | H1 : first_viol (wf_expr E ?sc) _ ?xs ?r ?l, H2 : first_viol (wf_expr E ?sc) _ ?xs ?r' ?l' |- ?r = ?r' /\ ?l = ?l' =>
+        exact (first_viol_det _ _ _ (wf_expr_viol sc) (viol_e_det1 sc) _ _ _ _ H1 H2)
+    | H1 : first_viol (wf_cond E ?sc) _ ?xs ?r ?l, H2 : first_viol (wf_cond E ?sc) _ ?xs ?r' ?l' |- ?r = ?r' /\ ?l = ?l' =>
+        exact (first_viol_det _ _ _ (wf_cond_viol sc) (viol_cond_det sc) _ _ _ _ H1 H2)
+    end.
+
+  Lemma viol_det :
+    (forall sc s r l, viol_stmt E sc s r l -> forall r' l', viol_stmt E sc s r' l' -> r = r' /\ l = l') /\
+    (forall sc ss r l, viol_block E sc ss r l -> forall r' l', viol_block E sc ss r' l' -> r = r' /\ l = l') /\
+    (forall sc arms r l, viol_scan_arms E sc arms r l -> forall r' l', viol_scan_arms E sc arms r' l' -> r = r' /\ l = l') /\
+    (forall sc arms r l, viol_if_arms E sc arms r l -> forall r' l', viol_if_arms E sc arms r' l' -> r = r' /\ l = l').
+  Proof.
+    destruct wf_det as (Ds & Db & Da & Di).
+    apply viol_all_mind; intros;
+      match goal with H : ?T |- _ =>
+        match T with viol_stmt _ _ _ _ _ => idtac | viol_block _ _ _ _ _ => idtac
+                   | viol_scan_arms _ _ _ _ _ => idtac | viol_if_arms _ _ _ _ _ => idtac end;
+        inversion H; subst; clear H end;
+      try (same; fail);
+      try (excl2; fail);
+      try (det; try (same; fail); try (excl2; fail); try congruence; eauto; fail);
+      try congruence;
+      try (eauto; fail);
+      repeat match goal with
+      | H1 : wf_stmt E ?sc ?s ?a, H2 : wf_stmt E ?sc ?s ?b |- _ => rewrite (Ds _ _ _ H1 _ H2) in *; clear H1
+      | H1 : wf_block E ?sc ?s ?a, H2 : wf_block E ?sc ?s ?b |- _ => rewrite (Db _ _ _ H1 _ H2) in *; clear H1
+      end; eauto.
+  Qed.
 End Exclusive.
 
 (* ------------------------------------------------------------------ check_complete *)
@@ -829,8 +906,116 @@ Lemma violates_not_ok order q f f' r l : (forall l, Permutation l (order l)) ->
   Violates q f r l -> check_file_with order q f <> CkOk f'.
 Proof. intros Ho Hv H. destruct (check_complete_lemma _ _ _ _ Ho H) as [_ Hn]. eapply Hn; eassumption. Qed.
 
-(* ================================================================== statements as used by Props/C06.v *)
 Lemma id_perm (l : list ident) : Permutation l ((fun l => l) l). Proof. apply Permutation_refl. Qed.
+
+(* ------------------------------------------------------------------ the first violation is unique *)
+Lemma viol_stanza_det q f i st r l r' l' : viol_stanza q f i st r l -> viol_stanza q f i st r' l' -> r = r' /\ l = l'.
+Proof.
+  intros H1 H2. destruct H1 as [r l H1|names sc n Hn Hw Hu]; destruct H2 as [r' l' H2|names' sc2 n' Hn' Hw' Hu'].
+  - eapply (proj1 (proj2 (viol_det _))); eassumption.
+  - exfalso. eapply (proj1 (proj2 (wf_viol_excl _))); eassumption.
+  - exfalso. eapply (proj1 (proj2 (wf_viol_excl _))); eassumption.
+  - auto.
+Qed.
+
+Lemma split_unique {A} (pre : list A) : forall (P Q : nat -> A -> Prop) pre' x x' post post',
+  (forall j y, P j y -> Q j y -> False) ->
+  pre ++ x :: post = pre' ++ x' :: post' ->
+  (forall j y, nth_error pre j = Some y -> P j y) -> Q (length pre) x ->
+  (forall j y, nth_error pre' j = Some y -> P j y) -> Q (length pre') x' ->
+  pre = pre' /\ x = x'.
+Proof.
+  induction pre as [|a pre IH]; intros P Q [|a' pre'] x x' post post' Hex Heq Hp Hq Hp' Hq'; cbn [app length] in *.
+  - inversion Heq; auto.
+  - injection Heq as E1 E2. subst x. exfalso. eapply (Hex 0%nat a'); [apply Hp'; reflexivity|exact Hq].
+  - injection Heq as E1 E2. subst x'. exfalso. eapply (Hex 0%nat a); [apply Hp; reflexivity|exact Hq'].
+  - injection Heq as E1 E2. subst a'.
+    destruct (IH (fun j => P (S j)) (fun j => Q (S j)) pre' x x' post post') as [-> ->]; auto.
+    intros j y. apply Hex.
+Qed.
+
+Lemma first_dup_unique (pre : list global) : forall seen pre' g g' post post',
+  pre ++ g :: post = pre' ++ g' :: post' ->
+  NoDup (map gl_name pre) -> (forall y, In y pre -> ~ In (gl_name y) seen) -> In (gl_name g) (seen ++ map gl_name pre) ->
+  NoDup (map gl_name pre') -> (forall y, In y pre' -> ~ In (gl_name y) seen) -> In (gl_name g') (seen ++ map gl_name pre') ->
+  pre = pre' /\ g = g'.
+Proof.
+  induction pre as [|a pre IH]; intros seen [|a' pre'] g g' post post' Heq Hnd Hs Hin Hnd' Hs' Hin'; cbn [app map] in *.
+  - inversion Heq; auto.
+  - injection Heq as E1 E2. subst g. exfalso. rewrite app_nil_r in Hin. apply (Hs' a'); [left; reflexivity|assumption].
+  - injection Heq as E1 E2. subst g'. exfalso. rewrite app_nil_r in Hin'. apply (Hs a); [left; reflexivity|assumption].
+  - injection Heq as E1 E2. subst a. inversion Hnd as [|? ? Hna Hnd1]; subst. inversion Hnd' as [|? ? Hna' Hnd1']; subst.
+    destruct (IH (seen ++ [gl_name a']) pre' g g' post post') as [-> ->]; auto.
+    + intros y Hy Hin2. apply in_app_or in Hin2 as [Hin2|[Hin2|[]]]; [apply (Hs y); [right; assumption|assumption]|].
+      apply Hna. rewrite Hin2. apply in_map. assumption.
+    + rewrite <- app_assoc. exact Hin.
+    + intros y Hy Hin2. apply in_app_or in Hin2 as [Hin2|[Hin2|[]]]; [apply (Hs' y); [right; assumption|assumption]|].
+      apply Hna'. rewrite Hin2. apply in_map. assumption.
+    + rewrite <- app_assoc. exact Hin'.
+Qed.
+
+Lemma violation_unique_lemma q f r l r' l' : Violates q f r l -> Violates q f r' l' -> r = r' /\ l = l'.
+Proof.
+  intros H1 H2.
+  destruct H1 as [pre g post Hg Hnd Hin|pre st post r l Hnd Hs Hpre Hv];
+    destruct H2 as [pre' g' post' Hg' Hnd' Hin'|pre' st' post' r' l' Hnd' Hs' Hpre' Hv'].
+  - rewrite Hg in Hg'. destruct (first_dup_unique pre [] pre' g g' post post' Hg' Hnd (fun _ _ H => H) Hin Hnd' (fun _ _ H => H) Hin') as [_ ->]. auto.
+  - exfalso. rewrite Hg, map_app in Hnd'. cbn [map] in Hnd'. apply NoDup_remove_2 in Hnd'. apply Hnd'. apply in_or_app. left. assumption.
+  - exfalso. rewrite Hg', map_app in Hnd. cbn [map] in Hnd. apply NoDup_remove_2 in Hnd. apply Hnd. apply in_or_app. left. assumption.
+  - rewrite Hs in Hs'.
+    destruct (split_unique pre (fun j st => wf_stanza q f j st) (fun j st => exists r l, viol_stanza q f j st r l)
+                pre' st st' post post') as [-> ->]; eauto.
+    + intros j y Hw (r0 & l0 & Hv0). eapply wf_stanza_viol; eassumption.
+    + eapply viol_stanza_det; eassumption.
+Qed.
+
+(* ------------------------------------------------------------------ the reported names are exactly the unused captures *)
+Lemma check_stanza_unused_exact order q globals i st ns l : (forall l, Permutation l (order l)) ->
+  check_stanza order q globals i st = Err (CkUnusedCaptures ns l) ->
+  l = st_start st /\ exists cnames, nth_error (qt_stanza_names q) i = Some cnames /\
+    forall s, In s ns <-> exists n, s = 64 :: n /\ unused_capture cnames st n.
+Proof.
+  intros Ho. unfold check_stanza. destruct (nth_error (qt_stanza_names q) i) as [names|] eqn:En; [|discriminate].
+  destruct (name_index FULL_MATCH (qt_file_names q)); [|discriminate]. intros H.
+  apply obind_err in H as [H|(a & Ha & H)]; [apply check_block_err_plain in H; destruct H|].
+  destruct a as [[stmts' env'] used]. cbv beta iota in H.
+  destruct (check_block_resolves _ _ _ _ _ _ Ha) as (_ & _ & ->).
+  apply obind_err in H as [H|(un & Hun & H)]; [exfalso; eapply unused_captures_no_err; eassumption|].
+  destruct un as [|u un]; [discriminate|]. inversion H; subst. split; [reflexivity|]. exists names. split; [reflexivity|].
+  intros s. rewrite (unused_captures_In _ _ _ _ _ Ho Hun s). unfold unused_capture. split; intros (m & H1 & H2); exists m; tauto.
+Qed.
+Lemma check_stanzas_unused_exact order q globals sts ns l : (forall l, Permutation l (order l)) -> forall i,
+  check_stanzas order q globals i sts = Err (CkUnusedCaptures ns l) ->
+  exists pre st post cnames, sts = pre ++ st :: post /\ l = st_start st /\
+    nth_error (qt_stanza_names q) (i + length pre) = Some cnames /\
+    forall s, In s ns <-> exists n, s = 64 :: n /\ unused_capture cnames st n.
+Proof.
+  intros Ho. induction sts as [|st sts IH]; cbn [check_stanzas]; intros i H; [discriminate|].
+  apply obind_err in H as [H|(st' & _ & H)].
+  - destruct (check_stanza_unused_exact _ _ _ _ _ _ _ Ho H) as (-> & cnames & Hn & Hx).
+    exists [], st, sts, cnames. cbn [length app]. rewrite Nat.add_0_r. auto.
+  - apply obind_err in H as [H|(sts' & _ & H)]; [|discriminate].
+    destruct (IH _ H) as (pre & st0 & post & cnames & -> & -> & Hn & Hx).
+    exists (st :: pre), st0, post, cnames. cbn [length app]. rewrite Nat.add_succ_r. auto.
+Qed.
+Lemma unused_names_exact_lemma q f l names :
+  check_file q f = CkErr 10 l names ->
+  exists pre st post cnames, f_stanzas f = pre ++ st :: post /\ l = st_start st /\
+    nth_error (qt_stanza_names q) (length pre) = Some cnames /\
+    forall s, In s names <-> exists n, s = 64 :: n /\ unused_capture cnames st n.
+Proof.
+  unfold check_file, check_file_with, to_result. destruct (check_file_ck (fun l => l) q f) as [|ce| |] eqn:E; try discriminate.
+  intros [= Hv <- <-]. assert (Hce : exists ns l0, ce = CkUnusedCaptures ns l0).
+  { destruct ce as [| | | | | | | | | |[| |]]; try discriminate Hv. eauto. }
+  destruct Hce as (ns & l0 & ->). cbn [ce_loc ce_names].
+  unfold check_file_ck in E. apply obind_err in E as [E|(g & Hg & E)].
+  - exfalso. revert E. generalize ([[]] : cenv). induction (f_globals f) as [|g gs IH]; cbn [check_global_table]; intros m E; [discriminate|].
+    destruct (varmap_add m (gl_name g) _ false); [eauto|discriminate].
+  - apply obind_err in E as [E|(sts' & _ & E)]; [|discriminate].
+    apply (check_stanzas_unused_exact _ _ _ _ _ _ id_perm 0%nat E).
+Qed.
+
+(* ================================================================== statements as used by Props/C06.v *)
 
 Lemma check_sound_thm q f v l names :
   check_file q f = CkErr v l names -> exists r, rule_code r = v /\ Violates q f r l.
@@ -869,3 +1054,11 @@ Lemma set_needs_mutable_thm cx env x l v env' :
   unscoped_check_set cx env x l v = Ok env' ->
   varmap_get (cx_globals cx) x = None /\ exists v0, env_find env x = Some (v0, true).
 Proof. apply set_needs_mutable_lemma. Qed.
+Lemma violation_unique_thm q f r l r' l' : Violates q f r l -> Violates q f r' l' -> r = r' /\ l = l'.
+Proof. apply violation_unique_lemma. Qed.
+Lemma unused_names_exact_thm q f l names :
+  check_file q f = CkErr 10 l names ->
+  exists pre st post cnames, f_stanzas f = pre ++ st :: post /\ l = st_start st /\
+    nth_error (qt_stanza_names q) (length pre) = Some cnames /\
+    forall s, In s names <-> exists n, s = 64 :: n /\ unused_capture cnames st n.
+Proof. apply unused_names_exact_lemma. Qed.
